@@ -87,3 +87,4 @@ def oracle(c, r):
 
 def nontrivial(cases):
     return len({(str(c["G"]["edges"]), str(c["D"])) for c in cases if min(c["D"]) < 0 or sum(1 for x in c["D"] if x > 1) > 0})
+common.add_growth(globals())
